@@ -29,6 +29,8 @@ class Index:
         self._mods = {}
         self._src = {}
         self._classes = None
+        self._uses = None
+        self._anchors = None
         self._flat = {}
         self.canon_counts = {}
         self.consulted = []
@@ -115,11 +117,93 @@ class Index:
                 counts = canonicalise(tree, self._class_table())
                 for k, v in counts.items():
                     self.canon_counts[k] = self.canon_counts.get(k, 0) + v
+                if rel.startswith("src/"):
+                    n_merged = self._merge_single_caller_helpers(tree)
+                    if n_merged:
+                        self.canon_counts["single-caller helpers merged"] = self.canon_counts.get("single-caller helpers merged", 0) + n_merged
             for node in ast.walk(tree):
                 for ch in ast.iter_child_nodes(node):
                     ch._parent = node
             self._mods[rel] = tree
         return self._mods[rel]
+
+    # -- a method that exactly one statement of one other method of its class calls, and that no rule addresses by name, is a piece of
+    #    that method (what "extract method" produces): it is merged back into its caller and removed from the class
+    def _merge_single_caller_helpers(self, tree):
+        uses, anchors = self._method_uses(), self._anchor_names()
+        merged = 0
+        for cls in [n for n in ast.walk(tree) if isinstance(n, ast.ClassDef)]:
+            for _ in range(6):
+                methods = {m.name: m for m in cls.body if isinstance(m, ast.FunctionDef)}
+                cands = {}
+                for name, m in methods.items():
+                    if name in anchors or name.startswith("__") or uses.get(name, 0) != 1:
+                        continue
+                    if m.decorator_list and not all(isinstance(d, ast.Name) and d.id == "staticmethod" for d in m.decorator_list):
+                        continue
+                    cands[name] = m
+                # innermost first: a helper that itself still calls another helper to be merged waits for the next pass
+                def calls_cand(m_, names):
+                    return any(isinstance(c, ast.Call) and isinstance(c.func, ast.Attribute) and isinstance(c.func.value, ast.Name)
+                               and c.func.value.id in ("self", cls.name) and c.func.attr in names and c.func.attr != m_.name for c in ast.walk(m_))
+                leaf = {k: v for k, v in cands.items() if not calls_cand(v, set(cands))}
+                cands = leaf or {}
+                if not cands:
+                    break
+                done = set()
+                for name, m in list(methods.items()):
+                    if name in cands and False:
+                        continue
+                    called = {c.func.attr for c in ast.walk(m) if isinstance(c, ast.Call) and isinstance(c.func, ast.Attribute)
+                              and isinstance(c.func.value, ast.Name) and c.func.value.id in ("self", cls.name) and c.func.attr in cands and c.func.attr != name}
+                    if not called:
+                        continue
+                    keep = [k for k in methods if k not in called]
+                    new = flatten_function(m, {k: methods[k] for k in called}, keep=keep, depth=1, cls_name=cls.name, canonical=False)
+                    still = {c.func.attr for c in ast.walk(new) if isinstance(c, ast.Call) and isinstance(c.func, ast.Attribute) and c.func.attr in called}
+                    inlined = called - still
+                    if inlined:
+                        cls.body[cls.body.index(m)] = new
+                        methods[name] = new
+                        done |= inlined
+                if not done:
+                    break
+                cls.body = [b for b in cls.body if not (isinstance(b, ast.FunctionDef) and b.name in done)]
+                merged += len(done)
+        return merged
+
+    def _method_uses(self):
+        """method name -> number of places anywhere in src/ where an attribute of that name is read (calls and method values alike)"""
+        if self._uses is None:
+            cnt = {}
+            for r in self.py_files("src"):
+                try:
+                    with open(self.path(r), encoding="utf-8") as f:
+                        raw = ast.parse(f.read())
+                except (SyntaxError, OSError):
+                    continue
+                for n in ast.walk(raw):
+                    if isinstance(n, ast.Attribute) and isinstance(n.ctx, ast.Load):
+                        cnt[n.attr] = cnt.get(n.attr, 0) + 1
+                    elif isinstance(n, ast.Constant) and isinstance(n.value, str) and n.value.isidentifier():
+                        cnt[n.value] = cnt.get(n.value, 0) + 1      # getattr(obj, "name") and the like
+            self._uses = cnt
+        return self._uses
+
+    def _anchor_names(self):
+        """identifiers that occur as string literals in the rule modules: the routines the rules address by name are never merged away"""
+        if self._anchors is None:
+            names = set()
+            here = os.path.dirname(os.path.abspath(__file__))
+            for f in sorted(os.listdir(here)):
+                if f.endswith(".py") and f not in ("probes.py", "mutants.py"):
+                    with open(os.path.join(here, f), encoding="utf-8") as fh:
+                        txt = fh.read()
+                    for tok in re.findall(r"[A-Za-z_][A-Za-z0-9_]*", " ".join(re.findall(r"\"([^\"\n]*)\"|'([^'\n]*)'", txt) and
+                                                                                  [a or b for a, b in re.findall(r"\"([^\"\n]*)\"|'([^'\n]*)'", txt)])):
+                        names.add(tok)
+            self._anchors = names
+        return self._anchors
 
     def _class_table(self):
         """classes of src/ with a repository-wide unique name (raw parse; used to decide which callee a call certainly reaches)"""
@@ -1036,7 +1120,7 @@ def _single_exit(stmts, make_result):
     return None if tail is None else [s] + tail
 
 
-def flatten_function(fn, methods, keep=(), depth=2, cls_name=None):
+def flatten_function(fn, methods, keep=(), depth=2, cls_name=None, canonical=True):
     """a copy of `fn` in which calls (as whole statements: `self.h(...)`, `x = self.h(...)`, `return self.h(...)`) of helper methods of
     the same class are replaced by the helper's body - parameters read as the arguments, `return v` turned into the assignment the
     call site makes.  Helpers named in `keep` (the routines a rule addresses by name), generators, helpers with *args/**kwargs, and
@@ -1146,7 +1230,8 @@ def flatten_function(fn, methods, keep=(), depth=2, cls_name=None):
                 elif isinstance(s, ast.Return) and helper_of(s.value) is not None:
                     done = inline(s.value, helper_of(s.value), lambda v, r: [ast.copy_location(ast.Return(value=v), r)], caller_names)
             if done is not None:
-                out += block(done, level - 1, caller_names | names_assigned(done))
+                caller_names = caller_names | names_assigned(done)      # later inlined helpers must not reuse these names
+                out += block(done, level - 1, caller_names)
                 continue
             for field in ("body", "orelse", "finalbody"):
                 if isinstance(getattr(s, field, None), list) and not isinstance(s, (ast.FunctionDef, ast.ClassDef, ast.AsyncFunctionDef)):
@@ -1178,8 +1263,9 @@ def flatten_function(fn, methods, keep=(), depth=2, cls_name=None):
             return n
 
     new = Ops().visit(new)
-    from .canon import Canon
-    new = Canon({}, {}).visit(new)     # the inlined text in the same canonical orientation as everything else
+    if canonical:
+        from .canon import Canon
+        new = Canon({}, {}).visit(new)     # the inlined text in the same canonical orientation as everything else
     ast.fix_missing_locations(new)
     for node in ast.walk(new):
         for ch in ast.iter_child_nodes(node):
